@@ -13,6 +13,8 @@ import (
 	"strings"
 	"time"
 
+	"golang.org/x/tools/go/ssa"
+
 	"verif/engine/symx"
 )
 
@@ -60,6 +62,7 @@ func main() {
 	dump := flag.String("dump-dir", "", "write deciding queries here")
 	maxDump := flag.Int("max-dump", 40, "maximum number of dumped queries")
 	trace := flag.Bool("trace", false, "trace instructions")
+	concrete := flag.String("concrete", "", "JSON list of assignments: run each concretely in the engine and report outs/fails")
 	pkgOverlay := flag.String("pkg-overlay", "", "extra overlays: comma-separated repoRelPath=absFile")
 	flag.Parse()
 
@@ -136,6 +139,24 @@ func main() {
 		}
 	}
 	ex := symx.NewExplorer(P, opt)
+	if *concrete != "" {
+		raw, err := os.ReadFile(*concrete)
+		if err != nil {
+			fail(err)
+		}
+		var list []symx.Assignment
+		if err := json.Unmarshal(raw, &list); err != nil {
+			fail(err)
+		}
+		rs := ex.RunConcrete(func(n string) *ssa.Function { return P.FindFunc(pkgPath, n) }, list)
+		b, _ := json.MarshalIndent(rs, "", " ")
+		if *out == "" {
+			os.Stdout.Write(b)
+		} else {
+			os.WriteFile(*out, b, 0o644)
+		}
+		return
+	}
 	for _, n := range names {
 		fn := P.FindFunc(pkgPath, n)
 		if fn == nil {
